@@ -4,10 +4,10 @@ import "jrpcvet/internal/chk"
 
 func init() {
 	register(&Def{
-		ID:        "C01",
-		Technique: "dominance/exclusivity rules over the dispatch closure, goroutine join accounting, field-level provenance in the response builder, predicate extraction (skip, count, bare-object), lockset of sends",
-		Explanation: "Decides: (D1) each handler invocation site is reached only for tasks with err == nil, the sites are mutually exclusive within one iteration, and the counter that selects the inline site counts exactly err == nil; (D2) each site reads ctx/handler/request from and writes result/error to one and the same task; (D3) every goroutine that runs a handler is joined by the WaitGroup waited on before the single delivery call, which dominates every return; (D4) the response builder appends once per iteration a fresh message whose id, batch flag, result and error come from the iteration's own task, and bypasses the append exactly when id is absent ∧ code ∉ {ParseError, InvalidRequest}; (D5) nothing is encoded for an empty list and the bare-object form is chosen exactly for len == 1 ∧ ¬batch; (D6) all sends are serialised (C10-D1); (D7) a handler's error is returned only for non-notifications.",
-		NotDecided: []string{"that the wire shows the handler's outcome for every value (parts in C13/C14)", "behaviour when a handler panics or returns an *Error whose Data is not JSON (assumption A-data)", "liveness"},
+		ID:          "C01",
+		Technique:   "dominance/exclusivity rules over the dispatch closure, goroutine join accounting, field-level provenance in the response builder, predicate extraction (skip, count, bare-object), lockset of sends",
+		Explanation: "Decides: (D1) each handler invocation site is reached only for tasks with err == nil, the sites are mutually exclusive within one iteration, and the counter that selects the inline site counts exactly err == nil; (D2) each site reads ctx/handler/request from and writes result/error to one and the same task; (D3) every goroutine that runs a handler is joined by the WaitGroup waited on before the single delivery call, which dominates every return; (D4) the response builder appends once per iteration a fresh message whose id, batch flag, result and error come from the iteration's own task, and bypasses the append exactly when id is absent ∧ code ∉ {ParseError, InvalidRequest}; (D5) nothing is encoded for an empty list and the bare-object form is chosen exactly for len == 1 ∧ ¬batch; (D6) all sends are serialised (C10-D1); (D7) a handler's error is returned only for non-notifications. (D8) the count of runnable tasks is decremented in the task loop only on the err == nil edge of the task at hand (it agrees with what the counting function counts).",
+		NotDecided:  []string{"that the wire shows the handler's outcome for every value (parts in C13/C14)", "behaviour when a handler panics or returns an *Error whose Data is not JSON (assumption A-data)", "liveness"},
 		Assumptions: []string{"A-data: a handler-supplied *Error carries valid JSON data", "sync.WaitGroup semantics"},
 		RuleText:    ruleText,
 		Run: func(c *chk.Ctx, tier string) {
@@ -35,10 +35,10 @@ func init() {
 		},
 	})
 	register(&Def{
-		ID:        "C03",
-		Technique: "who-may-call and call-graph rules for the single dispatcher, must-pass-through and dominance rules for the notification barrier, predicate agreement between counter and Done sites, lock-state facts at the barrier wait",
+		ID:          "C03",
+		Technique:   "who-may-call and call-graph rules for the single dispatcher, must-pass-through and dominance rules for the notification barrier, predicate agreement between counter and Done sites, lock-state facts at the barrier wait",
 		Explanation: "Decides: (D1) the inbound queue is FIFO (Add/Pop only), inserted into only by the reader and the stop function, dequeued at one site reachable only from one go statement of the start function, and the batch is prepared right where it is dequeued; (D2) every path through the prepare function calls the barrier function synchronously, which waits for outstanding notifications and then adds exactly the notification count of the counting function, with the server lock definitely released during the wait; (D3) after every handler invocation Done is called exactly when that same task's request is a notification, and Done/Add sites match; (D4) each batch's runner executes in its own goroutine tracked by the lifetime group, never on the dispatcher's own goroutine; (D5) notifications retained at stop are re-queued one original entry at a time, after the queue was walked and cleared.",
-		NotDecided: []string{"the liveness half (fair scheduling, semaphore progress)", "handlers that re-enter the server beyond 'the lock is released while waiting'"},
+		NotDecided:  []string{"the liveness half (fair scheduling, semaphore progress)", "handlers that re-enter the server beyond 'the lock is released while waiting'"},
 		Assumptions: []string{"sync.WaitGroup semantics", "the queue's Add/Pop are FIFO (mds/queue)"},
 		RuleText:    ruleText,
 		Run: func(c *chk.Ctx, tier string) {
@@ -58,8 +58,8 @@ func init() {
 		},
 	})
 	register(&Def{
-		ID:        "C06",
-		Technique: "who-may-call inventory of Handler-typed calls, dominance by the Acquire success edge, acquire/release pairing by path query, provenance of the semaphore size",
+		ID:          "C06",
+		Technique:   "who-may-call inventory of Handler-typed calls, dominance by the Acquire success edge, acquire/release pairing by path query, provenance of the semaphore size",
 		Explanation: "Decides: (D1) server-side code calls a Handler value at exactly one site, dominated by the err == nil edge of Acquire on the server's semaphore (built-in handlers are returned as Handler values and take the same path); (D2) every Release is in the acquiring function's own control flow with the acquire's weight, every path from a successful Acquire to the function's exit releases, and no Release precedes the handler call; (D3) the semaphore size is the options accessor's result, which is NumCPU() or the option on its ≥ 1 edge, without arithmetic; (D4) on Acquire's error edge the handler is unreachable. (D5) between obtaining a slot and calling the handler nothing takes the server lock.",
 		NotDecided:  []string{"work conservation (semaphore.Weighted's contract)", "that a cancelled waiter's error is reported as a cancellation error (C14)"},
 		Assumptions: []string{"golang.org/x/sync/semaphore.Weighted semantics"},
@@ -77,8 +77,8 @@ func init() {
 		},
 	})
 	register(&Def{
-		ID:        "C07",
-		Technique: "writer/deleter inventory of the in-flight table with call-graph reachability, lock discipline on the table, dominance of the reservation by validation, extracted 'not executed' predicate vs. reservation post-condition, loop-exit analysis of the release loop",
+		ID:          "C07",
+		Technique:   "writer/deleter inventory of the in-flight table with call-graph reachability, lock discipline on the table, dominance of the reservation by validation, extracted 'not executed' predicate vs. reservation post-condition, loop-exit analysis of the release loop",
 		Explanation: "Decides: (D1) ids are reserved at one site, in the context-attach function, and the table is accessed only under the server lock; (D2) the reservation is reached only on the err == nil edge of the same task, a hit in the table fails the task, and all lookups of a batch precede its first reservation; (D3) the predicate under which a response is marked 'not executed' (task.X == nil) is implied false by a reservation (X set non-nil before reserving), the delivery-time release is governed exactly by that mark, and the release loop has no early exit; (D4) ids are deleted only on the way through the delivery function or the stop function (never from CancelRequest). (D5) each reservation stores the cancel function of a context.WithCancel executed for that reservation, and CancelRequest looks up exactly the id it was given.",
 		NotDecided:  []string{"the history-level statement in full", "that the key passed to the reservation equals the id looked up (lock-step slices)"},
 		Assumptions: []string{"context.WithCancel/WithValue return non-nil contexts"},
